@@ -29,7 +29,8 @@ enum Conv {
     Linear(f64, f64),
     /// RAT_FUNC with a=d=e=0: INT = (b*PHYS + c)/f
     RatLinear(f64, f64, f64),
-    RatGeneral,
+    /// RAT_FUNC that is not of the linear form (index into GENERAL_COEFFS): never evaluated
+    RatGeneral(u8),
     Form,
 }
 
@@ -49,11 +50,22 @@ impl Conv {
                 }
             }
             Conv::RatLinear(..) => "RAT_FUNC(linear)",
-            Conv::RatGeneral => "RAT_FUNC(general)",
+            Conv::RatGeneral(_) => "RAT_FUNC(general)",
             Conv::Form => "FORM",
         }
     }
 }
+
+/// coefficient sets a..f that are not of the form 0 b c 0 0 f (f != 0): each of a, d, e non-zero on
+/// its own, and the degenerate f = 0
+const GENERAL_COEFFS: [(f64, f64, f64, f64, f64, f64); 6] = [
+    (1.0, 2.0, 3.0, 0.5, 1.0, 2.0),
+    (0.0, 2.0, 0.0, 0.0, 1.0, 4.0),
+    (0.0, 1.0, 0.0, 1.0, 0.0, 1.0),
+    (2.0, 0.0, 1.0, 0.0, 0.0, 1.0),
+    (0.0, 3.0, 1.0, 0.0, 0.5, 0.0),
+    (0.0, 2.0, 1.0, 0.0, 0.0, 0.0),
+];
 
 #[derive(Clone, Copy, Debug, PartialEq)]
 enum Place {
@@ -100,7 +112,7 @@ fn expected_range(raw: (f64, f64), conv: Conv) -> Option<(f64, f64)> {
             let (x, y) = (inv(lo), inv(hi));
             Some((x.min(y), x.max(y)))
         }
-        Conv::RatGeneral | Conv::Form => None,
+        Conv::RatGeneral(_) | Conv::Form => None,
     }
 }
 
@@ -115,7 +127,7 @@ fn build(host: Host, dt: DataType, conv: Conv, limits: (f64, f64)) -> A2lFile {
             Conv::TabNointp => ConversionType::TabNointp,
             Conv::TabVerb => ConversionType::TabVerb,
             Conv::Linear(..) => ConversionType::Linear,
-            Conv::RatLinear(..) | Conv::RatGeneral => ConversionType::RatFunc,
+            Conv::RatLinear(..) | Conv::RatGeneral(_) => ConversionType::RatFunc,
             Conv::Form => ConversionType::Form,
             Conv::None => unreachable!(),
         };
@@ -123,7 +135,10 @@ fn build(host: Host, dt: DataType, conv: Conv, limits: (f64, f64)) -> A2lFile {
         match conv {
             Conv::Linear(a, b) => cm.coeffs_linear = Some(CoeffsLinear::new(a, b)),
             Conv::RatLinear(b, c, f) => cm.coeffs = Some(Coeffs::new(0.0, b, c, 0.0, 0.0, f)),
-            Conv::RatGeneral => cm.coeffs = Some(Coeffs::new(1.0, 2.0, 3.0, 0.5, 1.0, 2.0)),
+            Conv::RatGeneral(k) => {
+                let (a, b, c, d, e, f) = GENERAL_COEFFS[k as usize % GENERAL_COEFFS.len()];
+                cm.coeffs = Some(Coeffs::new(a, b, c, d, e, f));
+            }
             Conv::Form => cm.formula = Some(Formula::new("sin(X1)".into())),
             Conv::TabIntp | Conv::TabNointp => {
                 let mut t = CompuTab::new("tab".into(), "".into(), ct, 1);
@@ -378,6 +393,60 @@ fn run_case(rec: &mut Recorder, c: &Case) {
     }
 }
 
+/// two MODULEs in one file that use the same names with different conversions and limits: the
+/// modules are judged independently, so the report of the file is the union of the reports the
+/// modules get when each stands alone in a file
+fn two_module_case(rng: &mut Rng, rec: &mut Recorder) {
+    let c1 = random_case(rng);
+    let mut c2 = random_case(rng);
+    c2.host = c1.host;
+    c2.dt_idx = c1.dt_idx; // same data type, other coefficients: a cache keyed by name and type would mix them up
+    let mk = |c: &Case| -> Option<A2lFile> {
+        let (dt, _, rlo, rhi) = DATATYPES[c.dt_idx];
+        let exp = expected_range((rlo, rhi), c.conv);
+        let limits = place_limits(exp.unwrap_or((rlo, rhi)), c.place)?;
+        Some(build(c.host, dt, c.conv, limits))
+    };
+    let (Some(f1), Some(f2)) = (mk(&c1), mk(&c2)) else {
+        rec.bump("skipped.range_not_finite");
+        return;
+    };
+    let mut both = f1.clone();
+    let mut m2 = f2.project.module[0].clone();
+    m2.set_name("m_second".to_string());
+    both.project.module.push(m2);
+    rec.eval();
+    rec.bump("two_module_files");
+    let key = format!("two modules: {:?}|{}|{:?}|{:?} + {:?}|{:?}", c1.host, DATATYPES[c1.dt_idx].1, c1.conv, c1.place, c2.conv, c2.place);
+    rec.nontrivial(key.as_bytes());
+    let limit_msgs = |f: &A2lFile| -> Result<Vec<String>, (String, String)> {
+        let rep = guarded(|| f.check())?;
+        let mut v: Vec<String> = rep
+            .iter()
+            .filter(|e| matches!(e, A2lError::LimitCheckError { .. }))
+            .map(|e| e.to_string())
+            .collect();
+        v.sort();
+        Ok(v)
+    };
+    let w = Json::obj().with("case", Json::s(&key)).with("input", Json::s(&clip(&both.write_to_string(), 4000)));
+    match (limit_msgs(&f1), limit_msgs(&f2), limit_msgs(&both)) {
+        (Ok(a), Ok(b), Ok(ab)) => {
+            let mut expected = a;
+            expected.extend(b);
+            expected.sort();
+            if expected != ab {
+                rec.violation(
+                    "limit check of a module depends on the other modules of the file",
+                    &format!("{key}: alone {expected:?}, together {ab:?}"),
+                    w,
+                );
+            }
+        }
+        (Err((sig, detail)), _, _) | (_, Err((sig, detail)), _) | (_, _, Err((sig, detail))) => rec.violation(&sig, &detail, w),
+    }
+}
+
 fn grid() -> Vec<Case> {
     let mags = [1e-6, 1e-3, 1.0, 7.5, 1e3, 1e6];
     let mut convs = vec![
@@ -386,7 +455,12 @@ fn grid() -> Vec<Case> {
         Conv::TabIntp,
         Conv::TabNointp,
         Conv::TabVerb,
-        Conv::RatGeneral,
+        Conv::RatGeneral(0),
+        Conv::RatGeneral(1),
+        Conv::RatGeneral(2),
+        Conv::RatGeneral(3),
+        Conv::RatGeneral(4),
+        Conv::RatGeneral(5),
         Conv::Form,
     ];
     for a in mags {
@@ -441,6 +515,8 @@ pub fn run(args: &Args, rec: &mut Recorder) {
     run_cases(args, rec, n_grid + n_rand, crate::util::reset_budget, |rng, case, rec| {
         if case < n_grid {
             run_case(rec, &cases[case as usize]);
+        } else if case % 10 == 3 {
+            two_module_case(rng, rec);
         } else {
             let c = random_case(rng);
             run_case(rec, &c);
@@ -462,6 +538,7 @@ pub fn run(args: &Args, rec: &mut Recorder) {
     rec.floor("place.Inside", 10);
     rec.floor("place.OutsideLow", 10);
     rec.floor("place.OutsideHigh", 10);
+    rec.floor("two_module_files", 10);
     rec.floor("place.NearLow", 10);
     rec.floor("place.NearHigh", 10);
 }
